@@ -42,7 +42,8 @@ META = dict(
 MODULE = "OPM.Properties.C32"
 REQUIRED = ["OPM.C32.roles_from_last_uodinfo", "OPM.C32.run_events_preserve_roles", "OPM.C32.history_protection",
             "OPM.C32.stored_run_carries_unit_roles", "OPM.C32.C32_partial", "OPM.C32.C32_counterexample", "OPM.C32.guarded_endpoint_refuses",
-            "OPM.C32.guarded_endpoint_admits", "OPM.C32.no_roles_required_open", "OPM.C32.listing_only_accessible",
+            "OPM.C32.guarded_endpoint_admits", "OPM.C32.no_roles_required_open", "OPM.C32.unit_listing_only_accessible",
+            "OPM.C32.run_listing_only_accessible", "OPM.C32.has_access_source_is_hasAccess",
             "OPM.C32.listing_contains_accessible", "OPM.C32.non_lsp_routes_guarded", "OPM.C32.unguarded_routes",
             "OPM.C32.lacking_every_role_no_access", "OPM.C32.access_iff"]
 
@@ -74,8 +75,9 @@ def engine_data(oid: str, required, run_id: str | None = None):
     e.required_roles = set(required)
     e.tags_info.upsert(Mdl.TagValue(name="Tag", tick_time=1.0, value=42.5, value_unit="L", value_formatted=mk + "L"))
     e.tags_info.upsert(Mdl.TagValue(name="System State", tick_time=1.0, value="Stopped", value_unit=None))
-    e.readings = [PM.ReadingInfo(discriminator="reading", tag_name="Tag", valid_value_units=["L"], entry_data_type=None,
-                                 commands=[], command_options=None)]
+    e.tags_info.upsert(Mdl.TagValue(name="T" + mk, tick_time=1.0, value=1.5, value_unit="L"))
+    e.readings = [PM.ReadingInfo(discriminator="reading", tag_name=n, valid_value_units=["L"], entry_data_type=None,
+                                 commands=[], command_options=None) for n in ("Tag", "T" + mk)]
     e.commands = [PM.CommandInfo(name="Cmd" + mk, docstring="doc" + mk)]
     e.uod_definition = PM.UodDefinition(
         commands=[PM.CommandDefinition(name="Cmd" + mk, validator=None, docstring="doc" + mk)],
@@ -93,6 +95,31 @@ def engine_data(oid: str, required, run_id: str | None = None):
         Mdl.RunLogLine(id="line1", command_name="Mark: " + mk, start=1.0, end=None, progress=None, start_values=[],
                        end_values=[])]))
     return e
+
+
+SPY = {"on": False}
+_SPY_IGNORED = {"engine_id", "required_roles"}     # what the role guard / the listing filter themselves look at
+_spy_cls: dict = {}
+
+
+def spy_class():
+    """EngineData subclass that records which attributes are touched while a request is being served: the
+    witness for "the handler body ran on this unit" (a guard-first handler touches only required_roles)."""
+    if "cls" not in _spy_cls:
+        import openpectus.aggregator.models as Mdl
+
+        class SpyEngineData(Mdl.EngineData):
+            def __getattribute__(self, name):
+                if SPY["on"] and name not in _SPY_IGNORED and not name.startswith("__") and name != "_spy_reads":
+                    object.__getattribute__(self, "__dict__").setdefault("_spy_reads", []).append(name)
+                return object.__getattribute__(self, name)
+
+            def __setattr__(self, name, value):
+                if SPY["on"] and name != "_spy_reads":
+                    object.__getattribute__(self, "__dict__").setdefault("_spy_reads", []).append("set:" + name)
+                object.__setattr__(self, name, value)
+        _spy_cls["cls"] = SpyEngineData
+    return _spy_cls["cls"]
 
 
 class App:
@@ -120,6 +147,7 @@ class App:
         self.calls.clear()
         for oid, req in world["units"]:
             self.agg._engine_data_map[oid] = engine_data(oid, req)
+        self.arm_spies()
         with database.create_scope():
             er = RecentEngineRepository(database.scoped_session())
             for oid, req in world["recent"]:
@@ -141,6 +169,20 @@ class App:
                 rr.store_recent_run(e, archive="archive" + mk, archive_filename="a" + mk + ".csv")
         self.world = world
 
+    def arm_spies(self) -> None:
+        """(re)install the spy class on every registered unit and forget earlier observations"""
+        import openpectus.aggregator.models as Mdl
+        cls = spy_class()
+        for e in self.agg._engine_data_map.values():
+            if type(e) is Mdl.EngineData:
+                e.__class__ = cls
+            e.__dict__["_spy_reads"] = []
+
+    def reads(self) -> dict[str, list[str]]:
+        """unit id -> attributes of its EngineData touched since the last request started"""
+        return {i: sorted(set(e.__dict__.get("_spy_reads", []))) for i, e in self.agg._engine_data_map.items()
+                if e.__dict__.get("_spy_reads")}
+
     def snapshot(self, oid):
         e = self.agg._engine_data_map.get(oid)
         if e is None:
@@ -151,9 +193,23 @@ class App:
     def request(self, row: dict, oid: str, user: list[str]):
         """-> (status, text). The LSP websocket is driven through initialize / didOpen / hover."""
         self.st["roles"]["cur"] = set(user)
+        for e in self.agg._engine_data_map.values():
+            e.__dict__["_spy_reads"] = []
+        SPY["on"] = True
+        try:
+            return self._request(row, oid, user)
+        finally:
+            SPY["on"] = False
+
+    def _request(self, row: dict, oid: str, user: list[str]):
         if row["method"] == "WS":
             return self.lsp_hover(row["path"], oid)
         path = row["path"]
+        query = []
+        if row.get("id_in") == "path":
+            path = path.replace("{" + row["id_param"] + "}", quote(oid, safe=""))
+        elif row.get("id_in") == "query":
+            query.append(f"{row['id_param']}={quote(oid, safe='')}")
         for p in ("unit_id", "engine_id", "run_id"):
             path = path.replace("{" + p + "}", quote(oid, safe=""))
         path = path.replace("{line_id}", "line1")
@@ -165,11 +221,15 @@ class App:
         elif h == "execute_control_button_command":
             body = {"command": "Start", "source": "unit_button"}
         elif h == "save_method":
+            SPY["on"] = False           # the harness's own look at the current version is not the handler's
             e = self.agg._engine_data_map.get(oid)
             body = {"lines": [{"id": "a", "content": "Mark: q"}], "version": e.method.version if e else 0,
                     "last_author": ""}
+            SPY["on"] = True
         elif h in ("register_active_user", "unregister_active_user"):
-            path += "?user_id=someone"
+            query.append("user_id=someone")
+        if query:
+            path += "?" + "&".join(query)
         r = self.client.request(method, path, json=body)
         return r.status_code, r.text
 
@@ -283,6 +343,8 @@ def cases_for(world: dict, rows: list[dict], user_sets, rng=None, sample: float 
     out = []
     for i, row in enumerate(rows):
         t = row["target"]
+        if t in ("unit", "run") and row.get("id_in") not in ("path", "query", "lsp-init"):
+            continue        # id carried in a request body / header: required to be guarded by the table theorem, not probed
         if t == "unit":
             ids = [o[0] for o in world["units"]] + ["nope"]
         elif t == "run":
@@ -320,13 +382,17 @@ def static_truth(w: dict) -> dict:
     units = {i: r for i, r in reversed(w["units"])}
     offline = {i: r for i, r in reversed(w["recent"]) if i not in units}
     runs = {i: r for i, r in reversed(w["runs"])}
-    return {"units": units, "offline": offline, "runs": runs, "markers": {}}
+    markers = {i: [marker(i), marker("eng-" + i)] for i in runs}     # set_world builds run r from engine "eng-r"
+    return {"units": units, "offline": offline, "runs": runs, "markers": markers}
 
 
-def oracle(rows, c, status, text, before, after, truth) -> list[Failure]:
+def oracle(rows, c, status, text, before, after, truth, reads=None) -> list[Failure]:
     """The property, stated over what the implementation did (independent of the Lean model).
     truth = {units: {id: roles of its last UodInfo}, offline: {id: roles when it disconnected},
-             runs: {run id: roles of its unit when the run was stored}, markers: {id: [strings that are its data]}}"""
+             runs: {run id: roles of its unit when the run was stored}, markers: {id: [strings that are its data]}}
+    reads = {unit id: attributes of its EngineData the request touched} (spy; the guard itself touches only
+             required_roles) - the witness that a handler body ran even when the answer carries no marker."""
+    reads = reads or {}
     row = rows[c["route"]]
     U = set(c["user"])
     fails = []
@@ -352,6 +418,11 @@ def oracle(rows, c, status, text, before, after, truth) -> list[Failure]:
         for oid in must_show:
             if oid not in ids:
                 fails.append(Failure(f"listing-hides-open-object:{h}", c, f"{oid} requires no roles but is not listed"))
+        for oid, attrs in reads.items():
+            R = set(truth["units"].get(oid) or [])
+            if R and not (R & U):
+                fails.append(Failure(f"data-readable-without-role:{h}", c,
+                                     f"{row['path']} read {attrs} of {oid} (requires {sorted(R)}) for a user with {sorted(U)}"))
         return fails
     pool = truth["units"] if t == "unit" else truth["runs"]
     if c["id"] not in pool:
@@ -360,10 +431,14 @@ def oracle(rows, c, status, text, before, after, truth) -> list[Failure]:
     lacks = bool(R) and not (R & U)
     if lacks:
         leaked = [m for m in truth["markers"].get(c["id"], [marker(c["id"])]) if m in text]
+        key = K_GRAMMAR if h == "get_pcode_tm_grammar" else K_SOCKET if h == "lsp_server_endpoint" else f"data-readable-without-role:{h}"
         if leaked:
-            key = K_GRAMMAR if h == "get_pcode_tm_grammar" else K_SOCKET if h == "lsp_server_endpoint" else f"data-readable-without-role:{h}"
             fails.append(Failure(key, c, f"{row['method']} {row['path']} for {c['id']} (requires {sorted(R)}) by a user with "
                                          f"{sorted(U)} returned its data: status {status} {text[:160]}"))
+        elif t == "unit" and reads.get(c["id"]):
+            fails.append(Failure(key, c, f"{row['method']} {row['path']} for {c['id']} (requires {sorted(R)}) by a user with "
+                                         f"{sorted(U)}: the handler body ran and read {reads[c['id']]} of the unit "
+                                         f"(status {status} {text[:100]})"))
         if before != after:
             fails.append(Failure(f"request-not-refused:{h}", c, f"{row['path']} changed the unit or reached the dispatcher "
                                                                  f"although the user lacks {sorted(R)}: {before} -> {after}"))
@@ -539,6 +614,8 @@ def probes_after(truth: Truth, rows: list[dict], user_sets) -> list[dict]:
     run_ids = list(truth.runs)
     for i, row in enumerate(rows):
         t = row["target"]
+        if t in ("unit", "run") and row.get("id_in") not in ("path", "query", "lsp-init"):
+            continue
         ids = unit_ids if t == "unit" else run_ids if t == "run" else [""] if t in ("unitsWithRecent", "unitsOnline", "runs") else []
         for oid in ids:
             for u in user_sets:
@@ -592,10 +669,41 @@ def random_history(rng, roles, n: int, tag: str) -> list[list]:
     return out
 
 
+ROLE_NAMES = ["A", "a", "B", " ", "", "admin", "Admin", "ADMIN", "administrator", "root", "superuser", "*",
+              "Daemon", "é", "all", "A "]
+
+
+def has_access_cases(ctx: Check) -> list[dict]:
+    small = [list(c) for k in range(3) for c in itertools.combinations(ROLE_NAMES, k)]
+    cases = [{"kind": "has_access", "required": r, "user": u} for r in small for u in small]
+    rng = ctx.rng
+    for _ in range(ctx.n(300, 5000)):       # larger sets, duplicates in the required list
+        r = [rng.choice(ROLE_NAMES) for _ in range(rng.randrange(0, 6))]
+        u = sorted(set(rng.choice(ROLE_NAMES) for _ in range(rng.randrange(0, 6))))
+        cases.append({"kind": "has_access", "required": r, "user": u})
+    return cases
+
+
+def has_access_impl(c: dict) -> bool:
+    from types import SimpleNamespace
+    from openpectus.aggregator.routers import auth
+    return bool(auth.has_access(SimpleNamespace(required_roles=list(c["required"])), set(c["user"])))
+
+
 def run(ctx: Check) -> int:
+    import time
     from harness.translators import routes
+    phases: dict[str, float] = {}
+    ctx.extra["phase_seconds"] = phases
+    t_ph = [time.time()]
+
+    def phase(name: str) -> None:
+        phases[name] = round(time.time() - t_ph[0], 1)
+        t_ph[0] = time.time()
     routes.generate()
+    phase("translate")
     ctx.prove(MODULE, REQUIRED)
+    phase("prove")
     rows = routes.collect()
     app = App()
     ctx.extra["routes_total"] = len(rows)
@@ -604,6 +712,8 @@ def run(ctx: Check) -> int:
                                                                    if r["target"] in ("unit", "run") and not r["touches"]]
     ctx.extra["unguarded_routes"] = [r["path"] for r in rows if r["target"] in ("unit", "run") and r["touches"]
                                      and r["guard"] == "none"]
+    ctx.extra["object_routes_not_probed"] = [r["path"] for r in rows if r["target"] in ("unit", "run")
+                                             and r.get("id_in") not in ("path", "query", "lsp-init")]
     ctx.extra["listing_routes"] = sum(1 for r in rows if r["target"] in ("unitsWithRecent", "unitsOnline", "runs"))
     ctx.rule = ("world: one online unit, one recent engine and one recent run per required-role set over {A,B,C} (8 each) "
                 "plus recent-engine rows of online units; every route that takes a unit/run x every object of its kind "
@@ -637,8 +747,9 @@ def run(ctx: Check) -> int:
             current["world"] = c["world"]
         before = app.snapshot(c["id"])
         status, text = app.request(rows[c["route"]], c["id"], c["user"])
+        reads = app.reads()
         after = app.snapshot(c["id"])
-        fails.extend(oracle(rows, c, status, text, before, after, static_truth(c["world"])))
+        fails.extend(oracle(rows, c, status, text, before, after, static_truth(c["world"]), reads))
         return [canon(rows[c["route"]], status, text)]
 
     def nontrivial(c, out):
@@ -650,6 +761,29 @@ def run(ctx: Check) -> int:
         ctx.count(("lsp:" if rows[c["route"]]["router"] == "lsp" else "") + rows[c["route"]]["target"])
     if mo:
         ctx.selftest("requests", "Access", cases[:3000], lambda c: [line("reqmut", c)], mo[:3000])
+    phase("static-requests")
+    # has_access itself, exhaustively over small role sets of a universe with case variants, blanks and
+    # super-user-like names (pure function; every run)
+    acc_cases = has_access_cases(ctx)
+    _, acc_mo = ctx.correspond("has_access", "Access", acc_cases,
+                               lambda c: ["\t".join(["acc", roles_wire(c["required"]), roles_wire(c["user"])])],
+                               lambda c: ["1" if has_access_impl(c) else "0"],
+                               nontrivial=lambda c, o: bool(c["required"]))
+    if acc_mo:
+        ctx.selftest("has_access", "Access", acc_cases,
+                     lambda c: ["\t".join(["accmut", roles_wire(c["required"]), roles_wire(c["user"])])], acc_mo)
+    for c in acc_cases:
+        R, U = set(c["required"]), set(c["user"])
+        r = has_access_impl(c)
+        if R and not (R & U) and r:
+            fails.append(Failure("has-access-grants-without-role", c,
+                                 f"has_access(required_roles={c['required']}, user_roles={sorted(U)}) is True"))
+        elif not R and not r:
+            fails.append(Failure("has-access-denies-open-object", c,
+                                 f"has_access(required_roles=[], user_roles={sorted(U)}) is False"))
+    ctx.count("has_access-pairs", len(acc_cases))
+
+    phase("has_access")
     # histories through the real message handlers, probed after every step
     hist_roles = ["A", "B"] if ctx.tier == "quick" else ["A", "B", "C"]
     hists = [c for c in load_corpus("C32") if c.get("kind") == "history"]
@@ -676,22 +810,25 @@ def run(ctx: Check) -> int:
         out = []
         for k, ev in enumerate(c["steps"]):
             engine.apply(ev)
+            app.arm_spies()
             t.apply(ev)
             out.append(engine.state())
             view = t.view()
             for p in probes_after(t, rows, subsets(c["roles"])):
                 before = app.snapshot(p["id"])
                 status, text = app.request(rows[p["route"]], p["id"], p["user"])
+                reads = app.reads()
                 after = app.snapshot(p["id"])
                 case = {"kind": "history", "steps": c["steps"][:k + 1], "probe": p, "route": p["route"],
                         "id": p["id"], "user": p["user"]}
-                fails.extend(oracle(rows, case, status, text, before, after, view))
+                fails.extend(oracle(rows, case, status, text, before, after, view, reads))
                 out.append(canon(rows[p["route"]], status, text))
                 ctx.count("history-probe:" + rows[p["route"]]["target"])
             ctx.count("history-step:" + ev[0])
         return out
 
     ctx.correspond("histories", "Access", hists, hist_lines, hist_impl, impl_timeout=300)
+    phase("histories")
     for f in fails:
         ctx.fail(f)
     ctx.exhaustive = True
@@ -715,6 +852,13 @@ def _search(ctx: Check) -> None:
 def replay(obj) -> int:
     from harness.translators import routes
     c = obj.get("case", {})
+    if c.get("kind") == "has_access":
+        r = has_access_impl(c)
+        R, U = set(c["required"]), set(c["user"])
+        print(f"has_access(required_roles={c['required']}, user_roles={sorted(U)}) = {r}")
+        bad = (bool(R) and not (R & U) and r) or (not R and not r)
+        print("property: lacking every required role -> False; no required roles -> True;", "VIOLATED" if bad else "ok")
+        return 1 if bad else 0
     rows = routes.collect()
     if c.get("kind") == "history":
         app = App()
@@ -728,13 +872,16 @@ def replay(obj) -> int:
         p = c["probe"]
         idx = next((i for i, r in enumerate(rows) if r["path"] == p["path"] and r["method"] == p["method"]), p["route"])
         p = dict(p, route=idx)
+        app.arm_spies()
         before = app.snapshot(p["id"])
         status, text = app.request(rows[idx], p["id"], p["user"])
+        reads = app.reads()
         after = app.snapshot(p["id"])
         print(f"{rows[idx]['method']} {rows[idx]['path']}  id={p['id']!r} user_roles={p['user']}")
+        print("EngineData attributes touched by the request:", reads)
         print("required by the last UodInfo:", t.view()["units"], "offline:", t.view()["offline"], "runs:", t.view()["runs"])
         print("status:", status, "body:", text[:600])
-        fs = oracle(rows, p, status, text, before, after, t.view())
+        fs = oracle(rows, p, status, text, before, after, t.view(), reads)
         for f in fs:
             print("oracle:", f.key, "-", f.detail[:300])
         return 1 if fs else 0
@@ -748,11 +895,13 @@ def replay(obj) -> int:
     app.set_world(c["world"])
     before = app.snapshot(c["id"])
     status, text = app.request(rows[idx], c["id"], c["user"])
+    reads = app.reads()
     after = app.snapshot(c["id"])
     print(f"{rows[idx]['method']} {rows[idx]['path']}  id={c['id']!r} user_roles={c['user']}")
     print("status:", status, "body:", text[:600])
     print("unit state / rpc calls before -> after:", before, "->", after)
-    fs = oracle(rows, c, status, text, before, after, static_truth(c["world"]))
+    print("EngineData attributes touched by the request:", reads)
+    fs = oracle(rows, c, status, text, before, after, static_truth(c["world"]), reads)
     for f in fs:
         print("oracle:", f.key, "-", f.detail[:300])
     return 1 if fs else 0
